@@ -9,6 +9,7 @@ CONSTANTS MaxLinks = 1
  DiscardVi = "link"
  Streaming = FALSE
  PinSer = FALSE
+ PinBos = FALSE
  PLen = 2
  ReadLens = {1,100}
  MaxCalls = 3
